@@ -1,9 +1,77 @@
-(** C03 proofs. *)
-From TU Require Import Base BPE_Model C03_Model.
+(** C03 proofs: the word- and text-level statements assembled from C02_Loop / C03_Sim. *)
+From TU Require Import Base BPE_Model C03_Model C02_Inv C02_Loop C02_Proofs C03_Sim.
+From Coq Require Import Lia.
 Open Scope N_scope.
 
 Lemma merge_word_pinned_refuted_l :
-  exists tbl w, merge_word_pinned tbl w <> Some (canon_ids tbl w).
+  exists tbl w, Forall (fun b => b < 256) w /\ merge_word_pinned tbl w <> Some (canon_ids tbl w).
 Proof.
-  exists [[97;98];[97;98;99]], [97;98;99]. vm_compute. discriminate.
+  exists [[97;98];[97;98;99]], [97;98;99]. split; [repeat constructor|vm_compute; discriminate].
+Qed.
+
+Lemma best_is_min_l : forall tbl ts m p, best tbl 0 ts = Some (m, p) ->
+  (exists l x y r, ts = l ++ x :: y :: r /\ p = length l /\ lookup tbl (x ++ y) = Some m) /\
+  (forall l x y r m', ts = l ++ x :: y :: r -> lookup tbl (x ++ y) = Some m' ->
+     m < m' \/ (m = m' /\ (p <= length l)%nat)).
+Proof.
+  intros tbl ts m p H. split.
+  - destruct (best_sound tbl ts 0 m p H) as [l [x [y [r [E [Hp Hl]]]]]]. exists l, x, y, r. auto.
+  - intros l x y r m' E Hl. exact (best_min tbl ts 0 m p H l x y r m' E Hl).
+Qed.
+
+Lemma best_none_l : forall tbl ts, best tbl 0 ts = None ->
+  forall l x y r, ts = l ++ x :: y :: r -> lookup tbl (x ++ y) = None.
+Proof. intros tbl ts H. exact (best_none tbl ts 0 H). Qed.
+
+Lemma canon_maximal_pairs : forall tbl ts l x y r,
+  canon tbl ts = l ++ x :: y :: r -> lookup tbl (x ++ y) = None.
+Proof. intros tbl ts. exact (best_none tbl (canon tbl ts) 0 (canon_maximal_l tbl ts)). Qed.
+
+(** the heap loop is the canonical reference, for every table and every word of bytes *)
+Lemma merge_word_canonical_l tbl w : Forall (fun b => b < 256) w ->
+  merge_word tbl w = Some (canon_ids tbl w).
+Proof.
+  intro Hb. destruct (merge_word_inv_l tbl w Hb) as [bs [E _]].
+  pose proof E as E2. unfold merge_word_st in E2.
+  apply (loop_canonical tbl w) in E2; [|apply init_inv; exact Hb|apply init_complete].
+  cbn [fst] in E2. rewrite toks_singletons in E2.
+  unfold merge_word. rewrite E. cbn [option_map snd]. rewrite flatten_ids_toks, E2. reflexivity.
+Qed.
+
+(** the reference changes no byte *)
+Lemma merge_at_concat : forall p ts, concat (merge_at p ts) = concat ts.
+Proof.
+  induction p as [|p IH]; intros [|x [|y r]]; cbn [merge_at concat]; try reflexivity.
+  - rewrite app_assoc. reflexivity.
+  - rewrite IH. reflexivity.
+  - rewrite IH. reflexivity.
+Qed.
+
+Lemma canon_concat_l tbl ts : concat (canon tbl ts) = concat ts.
+Proof.
+  unfold canon. generalize (length ts) as n. intro n. revert ts.
+  induction n as [|n IH]; intro ts; cbn [canon_fuel]; [reflexivity|].
+  destruct (best tbl 0 ts) as [[m p]|]; [|reflexivity]. rewrite IH. apply merge_at_concat.
+Qed.
+
+(** text level *)
+Lemma all_some_map {A B} (f : A -> option B) (g : A -> B) : forall l,
+  (forall x, In x l -> f x = Some (g x)) -> all_some (map f l) = Some (map g l).
+Proof.
+  induction l as [|x l IH]; intro H; [reflexivity|]. cbn [map all_some].
+  rewrite (H x) by (left; reflexivity). rewrite IH by (intros y Hy; apply H; right; exact Hy). reflexivity.
+Qed.
+
+Lemma bpe_body_canonical_l tbl s : Forall valid_cp s -> bpe_body tbl s = Some (canon_text tbl s).
+Proof.
+  intro Hs. unfold bpe_body, canon_text.
+  rewrite (all_some_map _ (fun w => canon_ids tbl (utf8s w))).
+  - cbn [option_map]. rewrite flat_map_concat_map. reflexivity.
+  - intros w Hw. apply merge_word_canonical_l. apply utf8s_bytes. apply (words_valid s Hs). exact Hw.
+Qed.
+
+Lemma check_run_C03_l v : Forall valid_cp (v_str (v_nth 1 v)) -> check_C03 v (run_C03 v) = true.
+Proof.
+  intro Hs. unfold check_C03, run_C03. rewrite (bpe_body_canonical_l _ _ Hs). cbn [opt_v val_eqb].
+  rewrite val_eqb_nlist. reflexivity.
 Qed.
